@@ -219,7 +219,7 @@ void scen_c08(mt_case * c) {
   U.items = rd_range(r, 1, c->tier ? 60 : 30); U.yp = (int)rd_below(r, 3); U.yc = (int)rd_below(r, 3);
   int consumer_first = (int)rd_below(r, 2), main_role = (int)rd_below(r, 3);
   /* how long an early signal keeps polling before anybody else runs: mostly not at all, sometimes very long */
-  { unsigned k = rd_below(r, 64); e.burst_id = MVS_UNCOND_SIGNAL; e.burst_len = k < 40 ? 0 : k < 52 ? 100 : k < 59 ? 5000 : k < 62 ? 70000 : 1100000; }
+  { unsigned k = rd_below(r, 64); e.burst_id = MVS_UNCOND_SIGNAL; e.burst_ids[0] = 0; e.burst_len = k < 40 ? 0 : k < 52 ? 100 : k < 59 ? 5000 : k < 62 ? 70000 : 1100000; }
   int nby = (int)rd_below(r, 4), byy = rd_range(r, 1, 24);   /* bystander threads that only yield: other work in the run queues */
   mt_desc("C08 uncond mailbox items=%d producer yields %d consumer yields %d consumer_first=%d main_role=%d bystanders=%d(x%d yields)\n", U.items, U.yp, U.yc, consumer_first, main_role, nby, byy);
   mt_hash(c->prog.p, c->prog.pos);
